@@ -10,3 +10,5 @@ import PptxModel.Props.C04
 import PptxModel.Props.C06
 import PptxModel.Props.C20
 import PptxModel.GenProps.C20
+import PptxModel.Props.C10
+import PptxModel.GenProps.C10
